@@ -47,7 +47,7 @@ def parse_directive(lines):
     first = lines[0].strip()[3:].strip()
     kind, _, head = first.partition(' ')
     opts = []
-    keyre = re.compile(r'^(spec|loop \d+|sub|sig|mode|name|ghost|after|before|closure \d+|rules|drop_attrs|keep|impl_as|field)\s*:\s?(.*)$')
+    keyre = re.compile(r'^(spec|loop \d+|sub|sig|mode|name|ghost|after|before|closure \d+|rules|drop_attrs|keep|impl_as|field|attr)\s*:\s?(.*)$')
     for ln in lines[1:]:
         body = ln.strip()[3:]
         if body.startswith(' '):
@@ -435,7 +435,8 @@ class Builder:
             out = f'#[verifier::external_body]\n{sigtext}\n{spec}\n{{ unimplemented!() }}'
         elif mode == 'verify':
             body = self._splice_body(body, opts, name)
-            out = f'{sigtext}\n{spec}\n{body}'
+            attr = od.get('attr', '').strip()
+            out = (attr + '\n' if attr else '') + f'{sigtext}\n{spec}\n{body}'
         else:
             raise Undecided('bad mode ' + mode)
         e = Emitted()
